@@ -510,7 +510,7 @@ def _hist_job(h):
            "failed_steps": 0}
     old = writer.MAX_PAGE_SIZE, writer.DATAPAGE_VERSION
     try:
-        path = os.path.join(tmp, "h.parquet")
+        path = os.path.join(tmp, "h.parquet" if o["file_scheme"] == "simple" else "h_ds")
         df = F.build(spec)
         try:
             rt.write_frame(df, path, spec, o)
@@ -544,7 +544,7 @@ def _hist_job(h):
                         pf.write_row_groups(data, row_group_offsets=st.get("offsets"), compression=o["compression"], stats=o["stats"])
                     else:
                         fastparquet.write(path, pd.concat(frames, ignore_index=True) if len(frames) > 1 else frames[0], append=True,
-                                          compression=o["compression"], stats=o["stats"],
+                                          compression=o["compression"], stats=o["stats"], file_scheme=o["file_scheme"],
                                           **({"row_group_offsets": st["offsets"]} if st.get("offsets") else {}))
                         pf = fastparquet.ParquetFile(path)
                 except Exception as e:     # noqa: a step that raises must leave the file as it was
@@ -612,6 +612,33 @@ def gen_histories(ctx):
                 st["offsets"] = rng.choice([2, 5])
             steps.append(st)
         hs.append({"spec": spec, "opts": o, "steps": steps})
+    return hs
+
+
+def gen_multi_histories(ctx):
+    """MULTI-FILE datasets (hive / drill) grown by appends past the places where the part numbering changes shape: 9 -> 10 -> 11 -> 12
+    part files (part.9 / part.10 / part.11: one more digit; ids compared as numbers, not as text), also ~100 in the thorough tier.
+    Every step succeeds; after every step every part file, _metadata and _common_metadata are validated, _metadata must describe
+    exactly the footers of the part files on disk, and the decoded rows must be the rows written so far."""
+    from harness import rt
+    rng = ctx.rng
+    hs = []
+    targets = [8, 9, 10, 10, 11, 11, 12, 9, 10, 11] if ctx.quick() else [8, 9, 10, 11, 12, 9, 10, 11] * 4 + [98, 99, 100, 101]
+    for i, p0 in enumerate(targets):
+        kinds = [rng.choice(["int64", "float64", "str", "dt_ns", "Int32", "bool"]) for _ in range(rng.choice([1, 2]))]
+        spec = F.gen_spec(rng, n=p0 * 2, ncols=0, index=False)
+        spec["cols"] = [{"name": "c%d_%s" % (j, k), "kind": k, "nulls": rng.choice(["none", "some"]), "seed": rng.randrange(1 << 30)}
+                        for j, k in enumerate(kinds)]
+        o = rt.gen_opts(rng, spec)
+        o.update(file_scheme=rng.choice(["hive", "drill"]), write_index=False, has_nulls=True, object_encoding="infer",
+                 row_group_offsets=2, page_size=None, compression=rng.choice([None, "SNAPPY", "ZSTD"]))      # p0 part files of 2 rows
+        steps = []
+        for k in range(rng.choice([2, 3]) if p0 < 50 else 2):
+            via = rng.choice(["handle", "fresh", "fresh"])
+            nparts = rng.choice([1, 1, 2])
+            steps.append({"via": via, "frames": [2 * nparts], "seeds": [rng.randrange(1 << 30)], "offsets": 2 if nparts > 1 else None,
+                          "fail": None})
+        hs.append({"spec": spec, "opts": o, "steps": steps, "multi": True})
     return hs
 
 
@@ -739,7 +766,7 @@ def run(ctx):
                 "file_scheme simple/hive/drill incl. _metadata/_common_metadata, partition_on a key column with 1..3 values, write_index); every written file -> pqref fmt_validate "
                 "+ fmt_decode; trivial = the write raised (allowed outcome); distinct = distinct (spec, options)")
     jobs = gen_jobs(ctx)
-    hists = gen_histories(ctx)
+    hists = gen_histories(ctx) + gen_multi_histories(ctx)
     allres = C.pmap(_any_job, jobs + hists, init=_init, nproc=min(8, os.cpu_count() or 4), job_timeout=300)
     results, hres = allres[:len(jobs)], allres[len(jobs):]
     run_histories(ctx, hists, hres)
@@ -819,7 +846,7 @@ def classify_history(h, res):
     st = h["steps"][res["at_step"] - 1] if res.get("at_step") else None
     return {"stage": stage, "history": True, "after_failed_step": bool(res.get("after_failure")),
             "step_failed_itself": bool(st and st.get("fail")), "via": st["via"] if st else "write",
-            "dpv": h["opts"]["dpv"], "file_scheme": "simple", "kinds": sorted(set(c["kind"] for c in h["spec"]["cols"])),
+            "dpv": h["opts"]["dpv"], "file_scheme": h["opts"]["file_scheme"], "kinds": sorted(set(c["kind"] for c in h["spec"]["cols"])),
             "why": re.sub(r"\d+", "#", text)[:160]}
 
 
@@ -833,6 +860,7 @@ def run_histories(ctx, hists, hres):
         ctx.case(case, trivial=(res["outcome"] == "write-raised"))
         ctx.count("history_outcome", res["outcome"])
         ctx.count("history_steps", len(h["steps"]))
+        ctx.count("history_scheme", h["opts"]["file_scheme"])
         for st in h["steps"]:
             ctx.count("history_step", "%s/%s" % (st["via"], (st["fail"] or {}).get("kind", "succeeds")))
         if res["outcome"] == "harness-error":
